@@ -1,6 +1,6 @@
 #!/bin/bash
 # apply a seeded patch to /repo, run a command, always undo.   usage: try_seed.sh patch.diff cmd...
-P=$1; shift
+P=$(realpath $1); shift
 git -C /repo apply "$P" || { echo "patch does not apply"; exit 2; }
 "$@"; rc=$?
 git -C /repo checkout -- . 
